@@ -67,7 +67,7 @@ def _parse_quoted(s):
 
 def _split_anchor(rest):
     """'<anchor>: <text>' where the anchor may contain a quoted needle with ':' inside"""
-    mm = re.match(r"(.*?\b(?:before|after|wrap)\s+\d+\s+(`{1,3}|'{1,3}).*?\2)\s*:(.*)$", rest, re.S)
+    mm = re.match(r"(.*?\b(?:before|after|wrap|block_end)\s+\d+\s+(`{1,3}|'{1,3}).*?\2)\s*:(.*)$", rest, re.S)
     if mm:
         return mm.group(1), mm.group(3)
     a, _, t = rest.partition(':')
@@ -704,6 +704,31 @@ def _anchor_offset(anchor, text, mask, body_open, body_close, loops, name):
                 raise LostAnchor("%s: hint anchor text %r (occurrence %d) not found" % (name, needle, n))
             start = pos + 1
         return pos if which == 'before' else pos + len(needle)
+    # block_end n `text`: just before the closing brace of the innermost `{..}` block that contains the n-th occurrence
+    # of the text (robust against edits of the statements that follow the text inside that block)
+    mm = re.match(r"block_end\s+(\d+)\s+(`{1,3}|'{1,3})(.*?)\2$", a, re.S)
+    if mm:
+        n, needle = int(mm.group(1)), mm.group(3)
+        pos = -1
+        start = body_open
+        for _ in range(n):
+            pos = text.find(needle, start)
+            if pos < 0 or pos > body_close:
+                raise LostAnchor("%s: hint anchor text %r (occurrence %d) not found" % (name, needle, n))
+            start = pos + 1
+        depth = 0
+        j = pos + len(needle)
+        while j <= body_close:
+            if mask[j]:
+                c = text[j]
+                if c == '{':
+                    depth += 1
+                elif c == '}':
+                    if depth == 0:
+                        return j
+                    depth -= 1
+            j += 1
+        raise LostAnchor("%s: no enclosing block end after %r" % (name, needle))
     raise Unsupported("%s: bad hint anchor %r" % (name, anchor))
 
 
